@@ -1,13 +1,26 @@
-"""C12 — decided by theorems in coq/Props/C12.v plus the sequential correspondence engine (scripts/seqprops.py)."""
-import seqprops
+"""C12 — decided by theorems in coq/Props/C12.v plus the sequential correspondence engine (scripts/seqprops.py) and crash
+images taken between the rounds of a multi-transaction background free."""
+import json
+import seqprops, crashengine
 TRUSTED = ['hand-written AM (Model/Afs.v), abs_disk/wf_disk (Model/Abs.v), agreement relations (Model/Agree.v): run extracted on the implementation disk and replies',
            'go-journal obj.Log.Load as the reader of the logical disk']
 ASSUMPTIONS = ['sequential client; checkpoints taken after each RPC has returned and the background shrinker is idle']
 
 
 def run(ctx, ps, gen_bad):
-    return seqprops.run(ctx, 'C12', ps, gen_bad)
+    fails, cov = seqprops.run(ctx, 'C12', ps, gen_bad)
+    # between the rounds of a background free the disk must never show an inode that still points at blocks already
+    # given back (whoever gets them next would share them with it): crash images inside a 720-block truncation
+    n = 16 if ctx.quick else 300
+    wl = [('bigshrink', 0, 3000, True, n, ctx.seed * 4 + 0), ('bigshrink', 0, 3000, True, n, ctx.seed * 4 + 2)]
+    f2, c2 = crashengine.run(ctx, 'C12', wl, own=r"wf=|suffix-|post-suffix")
+    fails += f2
+    cov['crash_images_between_rounds_of_a_background_free'] = c2['evaluations']
+    cov['evaluations'] += c2['evaluations']
+    return fails, cov
 
 
 def replay(ctx, path):
+    if 'budget' in json.load(open(path)):
+        return crashengine.replay(ctx, path)
     return seqprops.replay(ctx, path)
